@@ -258,7 +258,7 @@ def stage_lr(work, tier, seed):
         variants.append((gid, g, tags, ("lalr", "pager"), gid))
         # the same grammar with a user Layout rule (white space / line comments / nested comments)
         if "curated" in tags or n % 4 == 0:
-            kind = ("ws", "line", "block")[n % 3]
+            kind = G.LAYOUT_KINDS[n % len(G.LAYOUT_KINDS)]
             variants.append(("%s+lay:%s" % (gid, kind), G.with_layout(g, kind), tags, ("pager",), gid))
     for gid, g, tags, tts, base in variants:
         text = G.render(g)
@@ -495,7 +495,7 @@ def stage_glr(work, tier, seed):
         variants.append((gid, g, tags, gid))
         # the same grammar with a user Layout rule (white space / line comments / nested comments)
         if "curated" in tags or n % 5 == 0:
-            kind = ("line", "block", "ws")[n % 3]
+            kind = G.LAYOUT_KINDS[(n + 1) % len(G.LAYOUT_KINDS)]
             variants.append(("%s+lay:%s" % (gid, kind), G.with_layout(g, kind), tags, gid))
     for gid, g, tags, base in variants:
         text = G.render(g)
@@ -900,6 +900,32 @@ def pipeline_docs(tier, seed):
         "unicode_names": "S: Tä;\nterminals\nTä: 'ä';\n",
         "crlf": "S: Ta;\r\nterminals\r\nTa: 'a';\r\n",
         "block_comment": "/* c /* nested */ */ S: Ta; // x\nterminals\nTa: 'a';\n",
+        # references to the implicit symbols
+        "stop_ref": "S: A STOP | A;\nA: Ta;\nterminals\nTa: 'a';\n",
+        "stop_ref_plus": "S: STOP+;\nterminals\nTa: 'a';\n",
+        "aug_ref": "S: Ta AUG;\nterminals\nTa: 'a';\n",
+        "aug_ref_opt_sep": "S: Tc AUG?[Ta] S | Tc;\nterminals\nTa: 'a';\nTc: 'c';\n",
+        "augl_ref": "S: Ta AUGL?;\nterminals\nTa: 'a';\n",
+        "empty_ref_plus": "S: Ta EMPTY+;\nterminals\nTa: 'a';\n",
+        # production kinds that are not Rust identifiers
+        "kind_dot": "S: Ta {a.b} | Tb;\nterminals\nTa: 'a';\nTb: 'b';\n",
+        "kind_keyword": "S: Ta {fn} | Tb;\nterminals\nTa: 'a';\nTb: 'b';\n",
+        "kind_meta_space": "S: Ta {kind: \"x y\"} | Tb;\nterminals\nTa: 'a';\nTb: 'b';\n",
+        "kind_meta_int": "S: Ta {kind: 5} | Tb;\nterminals\nTa: 'a';\nTb: 'b';\n",
+        "kind_rule_level": "S {a.b}: Ta | Tb;\nterminals\nTa: 'a';\nTb: 'b';\n",
+        # user rules named like the helper rules of the regex-like operators
+        "helper_name_before": "A1: A+ Tb;\nA: Ta;\nterminals\nTa: 'a';\nTb: 'b';\n",
+        "helper_name_before2": "S: A1 A+;\nA1: Tb;\nA: Ta;\nterminals\nTa: 'a';\nTb: 'b';\n",
+        "helper_name_after": "S: A+ A1;\nA: Ta;\nA1: Tb;\nterminals\nTa: 'a';\nTb: 'b';\n",
+        "helper_name_opt": "S: A? AOpt;\nA: Ta;\nAOpt: Tb;\nterminals\nTa: 'a';\nTb: 'b';\n",
+        "helper_name_zero": "S: A0 A*;\nA0: Tb;\nA: Ta;\nterminals\nTa: 'a';\nTb: 'b';\n",
+        "helper_name_term": "S: Ta+ Tb;\nterminals\nTa: 'a';\nTb: 'b';\nTa1: 'c';\n",
+        # every order of two operators on one symbol
+        "plus_then_star": "S: A+ Tb A*;\nA: Ta;\nterminals\nTa: 'a';\nTb: 'b';\n",
+        "star_then_plus": "S: A* Tb A+;\nA: Ta;\nterminals\nTa: 'a';\nTb: 'b';\n",
+        "opt_then_plus": "S: A? Tb A+;\nA: Ta;\nterminals\nTa: 'a';\nTb: 'b';\n",
+        "plus_then_opt_star": "S: A+ Tb A? Tb A*;\nA: Ta;\nterminals\nTa: 'a';\nTb: 'b';\n",
+        "sep_then_plain": "S: A+[Tb] Tc A+ Tc A*[Tb];\nA: Ta;\nterminals\nTa: 'a';\nTb: 'b';\nTc: 'c';\n",
     }
     shapes = {
         "sep_regex_plus": "S: Num+[Sep];\nterminals\nNum: /\\d+/;\nSep: /[,;]/;\n",
@@ -950,6 +976,11 @@ def pipeline_docs(tier, seed):
             else:
                 b = b[:pos]
         docs.append(("mut:%d:%s" % (i, os.path.basename(path)), b, None))
+    # random syntactically valid documents of the grammar language (every construct of
+    # lang/rustemo.rustemo; names from pools with the compiler's own names in them)
+    rng = random.Random(seed * 211 + 7)
+    for i in range(600 if tier == "quick" else 6000):
+        docs.append(("gen:%d" % i, G.docgen(rng), None))
     return docs
 
 
@@ -967,7 +998,8 @@ def stage_pipeline(work, tier, seed):
     gdir = work.path("pipeline", "g", "x")
     gdir = os.path.dirname(gdir)
     for n, (did, text, attrs) in enumerate(docs):
-        use = combos if attrs is not None or did.startswith("con:") else [combos[n % 2]]
+        use = (combos if attrs is not None or did.startswith("con:")
+               else [combos[n % len(combos)]] if did.startswith("gen:") else [combos[n % 2]])
         for ci, st in enumerate(use):
             d = os.path.join(gdir, "d%d_%d" % (n, ci))
             os.makedirs(d, exist_ok=True)
@@ -1007,10 +1039,13 @@ def stage_pipeline(work, tier, seed):
             out += got
             if r.returncode == 0:
                 break
-            # the process died (stack overflow / abort): the case in progress is a crash
             ci = int(open(op + ".progress").read())
-            out.append({"id": todo[ci]["id"], "outcome": "crash", "class": "crash",
-                        "msg": "process exit %d: %s" % (r.returncode, r.stderr[-200:])})
+            if r.returncode == 3 and got and got[-1].get("outcome") == "hang":
+                pass  # the compiler did not return within the timeout: recorded by vhist
+            else:
+                # the process died (stack overflow / abort): the case in progress is a crash
+                out.append({"id": todo[ci]["id"], "outcome": "crash", "class": "crash",
+                            "msg": "process exit %d: %s" % (r.returncode, r.stderr[-200:])})
             out = [x for x in out]
             todo = todo[ci + 1:]
         return out
@@ -1065,7 +1100,7 @@ def stage_pipeline(work, tier, seed):
             msg = (mm.group(1) + " " + mm.group(2))[:200]
         return {"id": rid, "via": "cli", "known": False, "doc": FINE_DOC, "algo": m["algo"], "lexer": m["lexer"],
                 "outcome": outcome, "class": "", "msg": msg}
-    cli_ids = [rid for rid in meta if not rid.startswith("mut:")]
+    cli_ids = [rid for rid in meta if not rid.startswith("mut:") and not rid.startswith("gen:")]
     if tier == "quick":
         cli_ids = [rid for n, rid in enumerate(cli_ids) if n % 3 == 0]
     with ThreadPoolExecutor(max_workers=run.NCPU) as ex:
@@ -1126,17 +1161,27 @@ def stage_regen(work, tier, seed):
     base = work.path("regen", "h", "x")
     base = os.path.dirname(base)
     # 1. fresh generation per grammar to learn the item list
+    # the hand-written grammars plus every AST shape (enum/struct/optional/vector/reference
+    # types in all the combinations type inference distinguishes)
+    grammars = dict(REGEN_GRAMMARS)
+    for sh in AST_SHAPES:
+        grammars["ast_" + sh[0]] = sh[1]
     first = [{"id": g, "dir": os.path.join(base, "first_" + g), "grammar": text, "settings": {"algo": "lr"},
-              "steps": [{"op": "generate", "force": True}]} for g, text in REGEN_GRAMMARS.items()]
+              "steps": [{"op": "generate", "force": True}]} for g, text in grammars.items()]
     items = {}
     for h in run_histories(work, "regen0", first):
+        if not h["steps"] or "items" not in h["steps"][0]:
+            continue
         items[h["id"]] = [(it[0], it[1]) for it in h["steps"][0]["items"]
                           if it[0] in ("type", "fn") and it[1] not in ("Input", "Ctx", "Token")]
     reqs = []
     n = 0
     gen = {"op": "generate"}
-    for g, text in REGEN_GRAMMARS.items():
-        its = items[g]
+    for g, text in grammars.items():
+        its = items.get(g)
+        if not its:
+            continue      # not generated under the default LR settings (conflicts)
+        extra = g.startswith("ast_")
         hists = []
         # delete each single item, regenerate twice
         for it in its:
@@ -1144,14 +1189,16 @@ def stage_regen(work, tier, seed):
         # delete pairs (all in thorough, sampled in quick)
         pairs = list(itertools.combinations(its, 2))
         if tier == "quick":
-            pairs = rng.sample(pairs, min(12, len(pairs)))
+            pairs = rng.sample(pairs, min(4 if extra else 12, len(pairs)))
+        elif extra:
+            pairs = rng.sample(pairs, min(40, len(pairs)))
         for a, b in pairs:
             hists.append([{"op": "delete", "names": [list(a), list(b)]}, gen])
         fns = [x for x in its if x[0] == "fn"]
         for it in (fns if tier == "thorough" else rng.sample(fns, min(3, len(fns)))):
             other = rng.choice(its)
             hists.append([{"op": "edit", "name": it[1]}, {"op": "delete", "names": [list(other)]}, gen, gen])
-        for k in range(3 if tier == "quick" else 12):
+        for k in range((1 if extra else 3) if tier == "quick" else 12):
             steps = []
             for _ in range(rng.randint(2, 4)):
                 c = rng.random()
@@ -1280,6 +1327,19 @@ def stage_determinism(work, tier, seed):
     vectors = det_vectors(tier, seed)
     gnames = sorted(DET_GRAMMARS)
     reps = 2 if tier == "quick" else 4
+    # breadth in the other direction: many documents (every construct document, the AST
+    # shapes, generated documents of the grammar language) under the default settings only
+    texts = dict(DET_GRAMMARS)
+    wide = [(did, text) for did, text, attrs in pipeline_docs("quick", seed) if did.startswith("con:")]
+    wide += [("ast:" + sh[0], sh[1]) for sh in AST_SHAPES]
+    rngw = random.Random(seed * 37 + 5)
+    wide += [("gen:%d" % i, G.docgen(rngw)) for i in range(250 if tier == "quick" else 2500)]
+    for did, text in wide:
+        texts["w:" + did] = text
+        for vi in (0, 1):          # default settings (LR) and GLR, which also accepts conflicts
+            jobs.append(("w:" + did, vi, vectors[vi], "api", 0))
+            jobs.append(("w:" + did, vi, vectors[vi], "api", 1))
+            jobs.append(("w:" + did, vi, vectors[vi], "cli", 0))
     for gi, g in enumerate(gnames):
         for vi, v in enumerate(vectors):
             if v["go"] == "f" and v["algo"] == "lr":
@@ -1292,10 +1352,10 @@ def stage_determinism(work, tier, seed):
 
     def one(job):
         g, vi, v, via, rep = job
-        d = os.path.join(base, "%s_%d_%s_%d" % (g, vi, via, rep))
+        d = os.path.join(base, "%s_%d_%s_%d" % (g.replace(":", "_").replace("/", "_"), vi, via, rep))
         os.makedirs(d, exist_ok=True)
         gp = os.path.join(d, "g.rustemo")
-        open(gp, "w").write(DET_GRAMMARS[g])
+        open(gp, "w", encoding="utf-8").write(texts[g])
         out = os.path.join(d, "out")
         try:
             if via == "api":
@@ -1337,12 +1397,26 @@ def stage_determinism(work, tier, seed):
             od = os.path.join(outroot, sub)
             events.append({"id": "%s/dir%d" % (g, layout), "g": g, "given": DET_DEFAULT, "via": "dir", "proc": layout,
                            "out": digest_dir(od) if os.path.isdir(od) else "err"})
-    ep = work.path("det", "events.ndjson")
-    with open(ep, "w") as f:
-        for e in events:
-            f.write(json.dumps(e) + "\n")
-    r = run.run_tlc(work, "CheckDeterminism", "CheckDeterminism.cfg", {"EVENTS": ep}, timeout=1200)
-    v = r["verdicts"][0]
+    # events of one grammar stay together; shards keep the quadratic comparison small
+    byg = {}
+    for e in events:
+        byg.setdefault(e["g"], []).append(e)
+    shards = [[]]
+    for g in sorted(byg):
+        if len(shards[-1]) + len(byg[g]) > 700 and shards[-1]:
+            shards.append([])
+        shards[-1] += byg[g]
+    envs = []
+    for k, sh in enumerate(shards):
+        ep = work.path("det", "events%d.ndjson" % k)
+        with open(ep, "w") as f:
+            for e in sh:
+                f.write(json.dumps(e) + "\n")
+        envs.append({"EVENTS": ep})
+    rs = run.run_tlc_shards(work, "CheckDeterminism", "CheckDeterminism.cfg", envs, timeout=1200)
+    v = {"bad": [b for r in rs for b in r["verdicts"][0]["bad"]],
+         "nkeys": sum(r["verdicts"][0]["nkeys"] for r in rs)}
+    r = {"distinct": sum(x["distinct"] for x in rs), "states": sum(x["states"] for x in rs)}
     import collections
     outs = collections.Counter(e["out"] if len(e["out"]) < 8 else "generated" for e in events)
     return {"verdicts": [v] if v["bad"] else [], "bad": v["bad"][:30], "events": {e["id"]: e for e in events
